@@ -106,7 +106,8 @@ func (p *AV1Payloader) Payload(mtu uint16, payload []byte) (payloads [][]byte) {
 
 			if needNewPacket {
 				newSequence = false
-				currentPacketOBUHeader = nil
+				// the OBU being read now opens the new packet: its layer ids are the packet's
+				currentPacketOBUHeader = obuHeader.ExtensionHeader
 			}
 		}
 
